@@ -73,6 +73,10 @@ def run(ctx):
                                "reason": why} for (f, h, k, why) in WHITELIST]
     by_origin = {}
     clean = 0
+    import collections
+    queue = collections.deque()
+    seen = set()
+    n_bad_entries = 0
     for f in entries:
         acc = param_roots(f, spec.ACCUMULATOR_PARAMS.get(f.short, []))
         effs = [e for e in prog.summaries[f].effects
@@ -81,25 +85,42 @@ def run(ctx):
         if not effs:
             clean += 1
             continue
+        n_bad_entries += 1
         for e in sorted(effs, key=str):
-            for org, chain in prog.origins(f, e).items():
-                if prog_whitelisted(prog, org):
-                    continue
-                d = by_origin.setdefault((org[0], org[1], org[2]), {
-                    "entries": [], "chain": None, "effect": e})
-                if f.short not in d["entries"]:
-                    d["entries"].append(f.short)
-                if d["chain"] is None or len(chain) < len(d["chain"][1]):
-                    d["chain"] = (f.short, chain)
+            if (f, e) not in seen:
+                seen.add((f, e))
+                queue.append((f, e, (), f.short))
+    # one multi-source breadth-first search over (function, effect) nodes:
+    # every node is expanded once, so the cost is linear in the size of the
+    # effect graph whatever the number of read-only functions affected
+    while queue:
+        f, e, chain, root = queue.popleft()
+        for (de, org) in prog.direct.get(f, ()):
+            if de != e or prog_whitelisted(prog, org):
+                continue
+            d = by_origin.setdefault((org[0], org[1], org[2]), {
+                "entries": [], "chain": None, "effect": e})
+            if root not in d["entries"]:
+                d["entries"].append(root)
+            if d["chain"] is None:
+                d["chain"] = (root, list(chain))
+        for (callee, ce, site) in sorted(
+                prog._contrib_index(f).get(e, ()),
+                key=lambda x: (x[0].qualname, str(x[1]), x[2])):
+            if (callee, ce) not in seen:
+                seen.add((callee, ce))
+                queue.append((callee, ce, chain + ((f.short, site),), root))
+    ctx.notes["read_only_functions_with_effects"] = n_bad_entries
     for (ofunc, construct, kind), d in sorted(by_origin.items()):
         entry, chain = d["chain"]
         path = " -> ".join("%s [%s]" % (c[0], c[1]) for c in chain)
         ctx.violation(
             R, ofunc, construct,
             "%s at this construct writes state (%s, head %r, depth %d) that is "
-            "reachable from %d read-only function(s), e.g. %s; call chain: %s"
+            "reachable from read-only function(s) such as %s (%d read-only "
+            "functions have some effect); call chain: %s"
             % (kind, d["effect"][0], d["effect"][1], d["effect"][2],
-               len(d["entries"]), ", ".join(d["entries"][:6]),
+               ", ".join(d["entries"][:6]), n_bad_entries,
                path or "(direct)"),
             {"entries": d["entries"], "chain": chain, "effect": list(d["effect"])})
     ctx.sample({"rule": R, "read_only_functions_clean": clean,
